@@ -84,10 +84,10 @@ META = {
         "technique": "Lean 4 theorem over the open script + differential check with directory dumps around rejected opens",
     },
     "C11": {
-        "text": "Logic proved: the loser of the lock touches nothing but LOCK, and in every open the flock precedes all settings/index/WAL/CAS traffic. Kernel flock exclusivity and release-on-close/death are assumed (named), and exercised with racing threads, a second handle, a second process, killed/dropped/kept-alive owners. " + _corr,
-        "design_ref": "DESIGN.md §7 C11",
-        "note": "PARTIAL in the brief's sense: OS lock semantics cannot be proved, only the call order around it.",
-        "technique": "Lean 4 theorems on the open script (lock-first) + process/thread race exercise through the interposer",
+        "text": "Proved for one call: the loser of the lock touches nothing but LOCK, and in every open the flock precedes all settings/index/WAL/CAS traffic. Proved for the protocol (any number of processes and concurrent calls of open, clones, drops, process deaths, any interleaving): at most one owner, a refused call only closes its own descriptor, and once the owner dropped its last reference, failed after locking, or died, the next call is granted. The kernel's flock rule is part of the model (named in CasModel/Lock.lean) and compared with the real kernel on every line of slice c11p (three processes, SIGKILL) next to racing threads, a second handle, a second process, killed/dropped/kept-alive owners. " + _corr,
+        "design_ref": "DESIGN.md §7 C11, §4 P10",
+        "note": "PARTIAL in the brief's sense: the kernel's lock semantics are modelled and exercised, not proved; the protocol built on them is proved.",
+        "technique": "Lean 4 theorems on the open script (lock-first) and on a multi-process lock-protocol model + process/thread race exercise through the interposer and real child processes",
     },
     "C15": {
         "text": "For all programs, thread counts and schedules of the interleaving model: lock invariant, lock order intents < state (< wal), no reachable deadlock (C15_no_deadlock), no infinite execution (C15_no_infinite_run: every step decreases a lexicographic measure), hence every strategy that keeps picking runnable threads finishes all calls (C15_all_calls_return). " + _corr,
